@@ -10,6 +10,7 @@ import (
 	"fmt"
 	"net"
 	"strconv"
+	"strings"
 	"testing"
 
 	"github.com/foxcpp/go-mockdns"
@@ -69,6 +70,44 @@ func cQTlsa(ad bool, recs []dns.TLSA, err error) string {
 	return fmt.Sprintf("(QOk %s %s)", cBool(ad), cTlsaList(recs))
 }
 
+// vFront stands before the mock DNS server and answers the TLSA queries for chosen names with a
+// response code of its own (REFUSED, NOTIMP: a name server that does not know the type, a load
+// balancer in the way); everything else is passed on.
+type vFront struct {
+	upstream string
+	rcodes   map[string]int
+}
+
+func (f *vFront) ServeDNS(w miekgdns.ResponseWriter, m *miekgdns.Msg) {
+	if len(m.Question) == 1 && m.Question[0].Qtype == miekgdns.TypeTLSA {
+		if rc, ok := f.rcodes[strings.ToLower(m.Question[0].Name)]; ok {
+			reply := new(miekgdns.Msg)
+			reply.SetRcode(m, rc)
+			w.WriteMsg(reply)
+			return
+		}
+	}
+	c := new(miekgdns.Client)
+	r, _, err := c.Exchange(m, f.upstream)
+	if err != nil {
+		reply := new(miekgdns.Msg)
+		reply.SetRcode(m, miekgdns.RcodeServerFailure)
+		w.WriteMsg(reply)
+		return
+	}
+	w.WriteMsg(r)
+}
+
+func vStartFront(upstream string, rcodes map[string]int) (*miekgdns.Server, *net.UDPAddr, error) {
+	pc, err := net.ListenPacket("udp", "127.0.0.1:0")
+	if err != nil {
+		return nil, nil, err
+	}
+	srv := &miekgdns.Server{PacketConn: pc, Handler: &vFront{upstream: upstream, rcodes: rcodes}}
+	go srv.ActivateAndServe()
+	return srv, pc.LocalAddr().(*net.UDPAddr), nil
+}
+
 func TestVerif_C13Disc(t *testing.T) {
 	out := vOpenOut()
 	defer out.Close()
@@ -77,13 +116,14 @@ func TestVerif_C13Disc(t *testing.T) {
 	stats := map[string]int{}
 	// zone parameters: address kind x AD bits x TLSA at orig x TLSA at canon
 	// addr: 0 = A at mx, 1 = CNAME -> canon with A, 2 = nothing (NXDOMAIN), 3 = SERVFAIL at mx, 4 = CNAME to a name without address
-	// tlsa: 0 = none, 1 = records AD, 2 = records no AD, 3 = SERVFAIL, 4 = empty answer AD
+	// tlsa: 0 = none, 1 = records AD, 2 = records no AD, 3 = SERVFAIL, 4 = empty answer AD,
+	//       5 = REFUSED, 6 = NOTIMP (answered by the front)
 	n := 0
 	for addr := 0; addr < 5; addr++ {
 		for adMx := 0; adMx < 2; adMx++ {
 			for adCanon := 0; adCanon < 2; adCanon++ {
-				for to := 0; to < 5; to++ {
-					for tc := 0; tc < 5; tc++ {
+				for to := 0; to < 7; to++ {
+					for tc := 0; tc < 7; tc++ {
 						if addr != 1 && (tc != 0 || adCanon != 0) {
 							continue
 						}
@@ -102,6 +142,7 @@ func TestVerif_C13Disc(t *testing.T) {
 							zones[canon] = mockdns.Zone{AD: adCanon == 1, TXT: []string{"no address here"}}
 						}
 						zoneView := map[string]string{}
+						rcodes := map[string]int{}
 						mk := func(kind int, name string) {
 							full := "_25._tcp." + name
 							switch kind {
@@ -113,8 +154,15 @@ func TestVerif_C13Disc(t *testing.T) {
 								zoneView[name] = vZoneTLSA(false, vTlsaRR(full, 1))
 							case 3:
 								zones[full] = mockdns.Zone{Err: fmt.Errorf("broken")}
+								zoneView[name] = "QFail"
 							case 4:
 								zones[full] = mockdns.Zone{AD: true, TXT: []string{"not a tlsa"}}
+							case 5:
+								rcodes[strings.ToLower(full)] = miekgdns.RcodeRefused
+								zoneView[name] = "QFail"
+							case 6:
+								rcodes[strings.ToLower(full)] = miekgdns.RcodeNotImplemented
+								zoneView[name] = "QFail"
 							}
 						}
 						mk(to, mx)
@@ -125,6 +173,14 @@ func TestVerif_C13Disc(t *testing.T) {
 							t.Fatal(err)
 						}
 						addrUDP := srv.LocalAddr().(*net.UDPAddr)
+						var front *miekgdns.Server
+						if len(rcodes) > 0 {
+							f, fa, err := vStartFront(addrUDP.String(), rcodes)
+							if err != nil {
+								t.Fatal(err)
+							}
+							front, addrUDP = f, fa
+						}
 						ext, err := dns.NewExtResolver()
 						if err != nil {
 							t.Fatal(err)
@@ -176,7 +232,10 @@ func TestVerif_C13Disc(t *testing.T) {
 							res = "(LRecs " + cTlsaList(recs) + ")"
 						}
 						srv.Close()
-						// where the zone holds TLSA records the view is the zone's
+						if front != nil {
+							front.Shutdown()
+						}
+						// where the zone holds TLSA records (or its name server fails the query) the view is the zone's
 						// RRset itself, so that the resolver function's answer is
 						// part of what is compared
 						vc, vo := cQTlsa(a1, r1, e1), cQTlsa(a2, r2, e2)
